@@ -1,8 +1,8 @@
 """C17 — readers: every reader kind over scripted upstreams, drained with random destination sizes."""
 PID = "C17"
 CASE_LIMIT = {"C17": 15}   # seconds: these cases are function calls, not sessions
-RULE = ("for each reader kind (map, filter, flatmap, head, fold, writer, scan, const, readerfunc, multi, exec multi, frame, "
-        "taskbuf, readfull, scanner, closing, cogroup): random inputs (0..40 rows, keys 0..9), random upstream scripts "
+RULE = ("for each reader kind (map, filter, flatmap, head, fold (int64, int and string keys), writer, scan, const, readerfunc, multi, exec multi, frame, "
+        "taskbuf, readfull, scanner, vector scanner, ReadAll, closing, cogroup): random inputs (0..40 rows, keys 0..9), random upstream scripts "
         "(chunk limits incl. zero-row reads, EOF with or after the last rows, injected read errors) and random destination-"
         "size sequences (1..7, cycled); destination frames are poisoned and kept, so writes beyond n and later alteration of "
         "delivered rows are observed; non-trivial = non-empty input and a script or more than one destination size")
@@ -12,8 +12,8 @@ ASSUMPTIONS = ["ReaderFunc: rows beyond n are under the user's function's contro
                "flatmap, fold, cogroup, taskbuf, readfull, scanner, writer, scan, readerfunc, const are judged against their list "
                "specification by the oracle; map, filter, head, multi, frame additionally have machine-checked refinement proofs"]
 
-KINDS = ["map", "filter", "flatmap", "head", "fold", "writer", "scan", "const", "readerfunc", "multi", "emulti", "frame",
-         "taskbuf", "readfull", "scanner", "closing", "cogroup"]
+KINDS = ["map", "filter", "flatmap", "head", "fold", "foldint", "foldstr", "writer", "scan", "const", "readerfunc", "multi", "emulti", "frame",
+         "taskbuf", "readfull", "scanner", "scannerv", "readall", "closing", "cogroup"]
 
 
 def gen_up(r, maxrows=40, script=True, fail=False):
@@ -45,7 +45,7 @@ def gen(r, tier):
     n = 4000 if tier == "quick" else 80000
     for i in range(n):
         kind = KINDS[i % len(KINDS)]
-        fail = r.chance(1, 12) and kind not in ("frame", "const", "taskbuf", "scanner", "fold", "cogroup", "scan")
+        fail = r.chance(1, 12) and kind not in ("frame", "const", "taskbuf", "scanner", "fold", "foldint", "foldstr", "cogroup", "scan")
         head = kind
         nups = 1
         if kind == "head":
@@ -62,7 +62,7 @@ def gen(r, tier):
         elif kind == "cogroup":
             nups = r.rng(1, 3)
         scripted = kind not in ("frame", "const", "taskbuf")
-        big = kind in ("cogroup", "fold", "multi", "emulti", "taskbuf", "flatmap", "filter") and i % 5 == 0
+        big = kind in ("cogroup", "fold", "foldint", "foldstr", "multi", "emulti", "taskbuf", "flatmap", "filter") and i % 5 == 0
         ups = [gen_up(r, maxrows=(300 if big else 40), script=scripted, fail=(fail and j == 0)) for j in range(nups)]
         dest = [r.rng(1, 7) for _ in range(r.rng(1, 4))]
         if r.chance(1, 10):
